@@ -157,10 +157,12 @@ CHECKS = {
         note="interval domain only: panics depending on relations between header vectors (table index vs table count, is_last markers, Huffman code shapes) are not decided",
         ref="DESIGN.md section 8.8"),
     "C18": dict(
-        technique="validation-check reconstruction from MIR against a reviewed table of the ICC stream decoder's consistency conditions; exhaustive walk of the tag-name decision tree; symbolic normal form of the prediction shift amount; exhaustive evaluation of the ICC header predictor from MIR (every position, every platform rule) against the format's predictor",
-        text="Claimed narrowly: the rejection clause (inconsistent encodings are rejected with an error). 24 consistency conditions of "
+        technique="validation-check reconstruction from MIR against a reviewed table of the ICC stream decoder's consistency conditions; exhaustive walk of the tag-name decision tree; symbolic normal form of the prediction shift amount; exhaustive evaluation of the ICC header predictor from MIR (every position, every platform rule) against the format's predictor; abstract evaluation from MIR of shuffle2 / shuffle4 (every length 0..17, 64, 65) and of the whole ICC command interpreter decode_icc (53 scripted streams: every command, tag shortcut and rejection) against an interpreter written from the format (R-ICC-SHUFFLE, R-ICC-INTERP; found D62)",
+        text="Two clauses. Rejection: 24 consistency conditions of "
              "read_icc/decode_icc (sizes, offsets, command/tag codes, predictor parameters, available data, final length) exist as "
-             "compare->error checks with the reviewed bound. Does not decide byte-exactness of accepted profiles.",
+             "compare->error checks with the reviewed bound. Interpreter: header predictor, shuffles and the command interpreter agree with "
+             "the format on every scripted stream (each command's index arithmetic once). Does not decide byte-exactness for every stream, "
+             "nor the context modelling of the entropy-coded byte stream.",
         note="table transcribed from the decoder and checked against ISO/IEC 18181-1 Annex on ICC encoding where the condition is explicit; intraprocedural",
         ref="DESIGN.md section 8.6"),
     "C20": dict(
